@@ -17,7 +17,9 @@ import (
 	"time"
 
 	v3 "github.com/projectcalico/api/pkg/apis/projectcalico/v3"
+	"github.com/go-logr/logr"
 	uruntime "k8s.io/apimachinery/pkg/util/runtime"
+	"k8s.io/klog/v2"
 
 	"verifsim/core"
 )
@@ -35,7 +37,8 @@ type harness struct {
 	api *apiServer
 	inc *incarnation
 
-	nInc int
+	nInc    int
+	passSeq int
 	meta map[string]*poolMeta // by pool uid
 
 	// swarm configuration
@@ -54,6 +57,7 @@ type harness struct {
 	pDisabledAtCreate int
 	skew        bool
 	xlag        bool
+	waiveStale  bool
 	envW        []int
 
 	faultsOn   bool
@@ -74,7 +78,8 @@ func run(r *core.R) {
 		"protected_pool_checked_at_quiescence", "mask_obligation_started", "mask_obligation_ended_by_disable", "mask_obligation_held_at_quiescence",
 		"masked_pool_enabled_after_terminating_gone", "transient_double_allocatable", "terminating_blocked_by_blocks", "block_created", "block_removed",
 		"restart_with_terminating_pool", "final_maximal", "final_nonmaximal", "final_overlap_pairs_checked", "quiesce_rounds_over_3",
-		"work_dropped_after_max_retries_recovered_by_resync")
+		"work_dropped_after_max_retries_recovered_by_resync", "stale_pass_enabled_pool_over_terminating", "stale_pass_wrote_condition", "stale_pass_enabled_over_allocatable", "stale_pass_disabled_allocatable")
+	klog.SetLogger(logr.Discard())
 	uruntime.ReallyCrash = false
 	uruntime.PanicHandlers = append(uruntime.PanicHandlers, func(_ context.Context, p interface{}) {
 		r.Violation("sut_panic", "%v\n%s", p, string(debug.Stack()))
@@ -172,6 +177,8 @@ func (h *harness) configure() {
 	r.Cfg("clock_skew", h.skew)
 	h.xlag = os.Getenv("VERIF_POOLCTL_XLAG") != ""
 	r.Cfg("cross_watch_lag", h.xlag)
+	h.waiveStale = os.Getenv("VERIF_POOLCTL_WAIVE_STALE") != ""
+
 	// environment action mix: create, toggle-disabled, delete, touch, block add, block remove, deliver pool events,
 	// deliver block events, spurious trigger
 	h.envW = []int{
@@ -184,7 +191,7 @@ func (h *harness) configure() {
 func (h *harness) main() {
 	r := h.r
 	h.configure()
-	h.api = &apiServer{h: h, pools: map[string]*v3.IPPool{}, blocks: map[string]*v3.IPAMBlock{}, owner: map[string]string{}, clock: time.Now().Truncate(time.Second)}
+	h.api = &apiServer{h: h, pools: map[string]*v3.IPPool{}, blocks: map[string]*v3.IPAMBlock{}, owner: map[string]string{}, lastLogged: map[string]*v3.IPPool{}, clock: time.Now().Truncate(time.Second)}
 	h.faultsOn, h.interleave = true, true
 	h.mu.Lock()
 	// Some runs start from an API server that already holds pools the controller has never seen.
